@@ -248,7 +248,9 @@ def run_history_check(ctx, prop, oracle_props, encoders, trusted, assumptions, e
                     if isinstance(ov, str):      # harness-generated configuration: (label, ini text)
                         payloads.append({"config": c, "ini_text": ov, "seed": sd, "max_legs": xlegs, "overrides": {}})
                     else:
-                        payloads.append({"config": c, "seed": sd, "max_legs": xlegs, "overrides": ov})
+                        flags = dict(ov.get("_tracer") or {})      # tracer options of this job (not part of the .ini)
+                        payloads.append(dict({"config": c, "seed": sd, "max_legs": xlegs,
+                                              "overrides": {k: v for k, v in ov.items() if k != "_tracer"}}, **flags))
     for pl in payloads:
         pl.setdefault("record_fresh", record_fresh)
         pl.setdefault("record_instates", record_instates)
@@ -264,6 +266,7 @@ def run_history_check(ctx, prop, oracle_props, encoders, trusted, assumptions, e
         for tr, pl in zip(trs, pls):
             tr["overrides"] = pl.get("overrides")
             tr["ini_text"] = pl.get("ini_text")
+            tr["light"] = bool(pl.get("light"))
         t_trace += _time.time() - t0
         t0 = _time.time()
         # 1. model-independent oracle on every trace
@@ -346,7 +349,7 @@ def run_history_check(ctx, prop, oracle_props, encoders, trusted, assumptions, e
 
 def payload_of(tr, max_legs):
     return {"config": tr["config"], "seed": tr["seed"], "overrides": tr.get("overrides") or {},
-            "max_legs": max_legs, "ini_text": tr.get("ini_text")}
+            "max_legs": max_legs, "ini_text": tr.get("ini_text"), "light": bool(tr.get("light"))}
 
 
 def replay_payloads(path):
